@@ -187,6 +187,26 @@ theorem glueAsCoded_eq_whole (ndr ndc nf : Nat) (hr : 0 < ndr) (hc : 0 < ndc) (s
   rw [glueAsCoded_eq_glue nf ndr ndc hr hc subs hid]
   exact glue_eq_whole ndr ndc nf hr subs W hnodup hcover hloc i j hi
 
+/-- Split partial discretisation: the repetition scaling acts in the numbering of the ACTIVE grid, before the
+    lift; after the lift the rows of the active faces are exactly the lifted rows of the glued active-grid
+    matrix and every other row is zero (so `partial_update_eq_whole` applies with `loc :=` the glued matrix). -/
+theorem partialFreshSplit_rows (nrowA ndr ndc : Nat) (hnd : 0 < ndr) (subs : List Sub) (outer : Sub) (i j : Nat) :
+    entry (partialFreshSplit nrowA ndr ndc false true subs outer) i j
+      = if i / ndr ∈ outer.own
+        then entry (mapCOO ndr ndc outer (glue ndr ndc subs)) i j else 0 := by
+  unfold partialFreshSplit
+  simp only [Bool.false_eq_true, if_false, if_true]
+  exact entry_toGlobal ndr ndc hnd { outer with loc := glue ndr ndc subs } i j
+
+/-- … and with the Mpfa accumulation as coded the same matrix results (full-cover subproblems of the active
+    grid have identity maps). -/
+theorem partialFreshSplit_coded (nrowA ndr ndc : Nat) (hr : 0 < ndr) (hc : 0 < ndc) (subs : List Sub) (outer : Sub)
+    (h : ∀ s ∈ subs, s.own.length = nrowA → idMaps ndr ndc s) :
+    partialFreshSplit nrowA ndr ndc true true subs outer = partialFreshSplit nrowA ndr ndc false true subs outer := by
+  unfold partialFreshSplit
+  simp only [if_true, Bool.false_eq_true, if_false]
+  rw [glueAsCoded_eq_glue nrowA ndr ndc hr hc subs h]
+
 /-! ### locality at the level of index sets: the overlap contains every interaction region of an own face -/
 
 /-- Abstract form: if the cell set of a subproblem contains, for each of its own faces, all cells sharing a
@@ -330,6 +350,15 @@ example : cellInd chainCN chainFN none (some [3]) none = ([1, 2, 3, 4], [3])
     (cell 2 here). `partial_update_discretization` used to do exactly this and discarded the cell list. -/
 example : cellInd chainCN chainFN (some [0]) none none = ([0, 1], [0, 1])
     ∧ cellInd chainCN chainFN (some [0]) (some []) none = ([0, 1, 2], [0, 1]) := by decide +kernel
+
+/-- split partial update on concrete data: active grid = faces [2,3,4] / cells [1,2] of a 5-face grid, split in two
+    subproblems sharing active face 1 (= full face 3); the count 2 is applied in ACTIVE numbering (face 1), not to
+    full face 1. -/
+example : (List.range 5).map (fun i => entry (partialFreshSplit 3 1 1 false true
+      [{ own := [0, 1], l2gR := [0, 1], l2gC := [0], loc := [(0, 0, 5), (1, 0, 7)] },
+       { own := [1, 2], l2gR := [1, 2], l2gC := [0, 1], loc := [(0, 0, 7), (1, 1, 9)] }]
+      { own := [2, 3, 4], l2gR := [2, 3, 4], l2gC := [1, 2], loc := [] }) i 1) = [0, 0, 5, 7, 0] := by
+  decide +kernel
 
 /-- partial update on concrete data: row 1 replaced, rows 0 and 2 kept (vector rows: `ndr = 2`) -/
 example : (List.range 6).map (fun i => entry (updateRows 2 [1] [(0, 0, 1), (2, 0, 2), (3, 0, 3), (5, 0, 4)]
